@@ -132,7 +132,9 @@ def main():
         ops, m.pending_ops = m.pending_ops, []
         return {"ops": ops, "raise": False}
 
-    init_ops = [{"k": "abs", "a": 0, "p": 5}, {"k": "rel", "a": 1, "p": 5}, {"k": "rel", "a": 1, "p": 10}, {"k": "now", "a": 0, "p": 1}]
+    # (one event exactly at the replication end: executed by an inclusive run to the end, whatever pauses came before)
+    init_ops = [{"k": "abs", "a": 0, "p": 5}, {"k": "rel", "a": 1, "p": 5}, {"k": "rel", "a": 1, "p": 10}, {"k": "now", "a": 0, "p": 1},
+                {"k": "abs", "a": end_t, "p": 5}]
     ctl = dd.SimCtl(plan["conc"], end_t, warm_t, "pause", init_ops=init_ops, prog_gen=prog_gen, model_factory=ReproModel)
     out = {"errors": []}
     with dd.quiet():
